@@ -8,6 +8,7 @@ package c18
 import (
 	"bytes"
 	"context"
+	"errors"
 	"fmt"
 	"math/rand/v2"
 	"net"
@@ -100,6 +101,8 @@ func (m *monitor) allowedInProcess(f func(c conf) bool) bool {
 type fakeTracker struct {
 	m   *monitor
 	url string
+	// slowFail > 0: the announce takes that long (virtual) and then fails, as an overloaded tracker does
+	slowFail time.Duration
 }
 
 func (f *fakeTracker) URL() string                      { return f.url }
@@ -122,6 +125,13 @@ func (f *fakeTracker) Announce(ctx context.Context, hash []byte, myid []byte, wa
 		m.count("tracker_contacts_proxied")
 	} else if port4 != 0 {
 		m.count("tracker_contacts_with_port")
+	}
+	if f.slowFail > 0 {
+		select {
+		case <-time.After(f.slowFail):
+		case <-ctx.Done():
+		}
+		return errors.New("tracker overloaded")
 	}
 	return nil
 }
@@ -225,8 +235,14 @@ func run(t *testing.T, c *vk.C, sc scen, rng *rand.Rand) map[string]int {
 			wsMu.Unlock()
 		}()
 		ft := &fakeTracker{m: m, url: "http://tracker.invalid/announce"}
+		// first in its tier in half of the scenarios: a tracker that answers slowly, with an error
+		ftSlow := &fakeTracker{m: m, url: "http://slow.invalid/announce", slowFail: time.Duration(3+rng.IntN(15)) * time.Second}
+		tier := []tracker.Tracker{ft}
+		if rng.IntN(2) == 0 {
+			tier = []tracker.Tracker{ftSlow, ft}
+		}
 		ws := webseed.New(wsSrv.URL+"/seed/"+token+"/", true)
-		t0, err := tor.New(proxy, m.hash, "", info, 0, [][]tracker.Tracker{{ft}}, []webseed.Webseed{ws})
+		t0, err := tor.New(proxy, m.hash, "", info, 0, [][]tracker.Tracker{tier}, []webseed.Webseed{ws})
 		if err != nil {
 			panic(err)
 		}
@@ -275,6 +291,15 @@ func run(t *testing.T, c *vk.C, sc scen, rng *rand.Rand) map[string]int {
 			}
 		}
 
+		if sc.Proxied {
+			// other, ordinary torrents live in the same process: what is on offer to incoming handshakes is
+			// theirs alone
+			for k := 0; k < 1+rng.IntN(3); k++ {
+				og := &fixture.Geo{Name: fmt.Sprintf("other%d", k), PieceLen: 16 << 10, Length: 20000 + int64(k), Seed: rng.Uint64()}
+				sw.AddTorrent(og, swarm.TorOpts{})
+			}
+			sw.Cut()
+		}
 		// incoming connection
 		a, b := net.Pipe()
 		srvErr := make(chan error, 1)
@@ -431,6 +456,28 @@ func run(t *testing.T, c *vk.C, sc scen, rng *rand.Rand) map[string]int {
 			}
 			wait(sc.Waits[i+1])
 		}
+		// the same torrent is added a second time (a second click on the magnet link) while the process-wide
+		// defaults say "everything on": the add is refused, and nothing may be contacted or announced on behalf
+		// of the refused object under settings the listed torrent does not have
+		config.DefaultDhtMode = config.DhtNormal
+		config.DefaultUseTrackers = true
+		config.DefaultUseWebseeds = true
+		ft2 := &fakeTracker{m: m, url: "http://tracker2.invalid/announce"}
+		if t2, err := tor.New(proxy, m.hash, "", info, 0, [][]tracker.Tracker{{ft2}}, nil); err == nil {
+			_, aerr := tor.AddTorrent(sw.Ctx, t2)
+			sw.Act("second add of the same hash -> %v", aerr)
+			sw.Cut()
+			time.Sleep(25 * time.Second)
+			sw.Cut()
+			if aerr == nil {
+				c.Inconclusive("the second add of a listed hash was accepted")
+			} else {
+				m.count("duplicate_adds_refused")
+			}
+		}
+		config.DefaultDhtMode = config.DhtNone
+		config.DefaultUseTrackers = false
+		config.DefaultUseWebseeds = false
 		tr.Kill()
 		sw.Cut()
 	})
